@@ -17,23 +17,25 @@ import (
 )
 
 type Engine struct {
-	repo   string
-	verif  string
-	prog   *ssa.Program
-	pkgs   []*packages.Package
-	spkgs  map[string]*ssa.Package // by short name (server, cmd)
-	fset   *token.FileSet
-	specs  *Specs
-	funcs  map[string]*ssa.Function // by key
-	files  map[*token.File]*ast.File
-	typeIDs map[string]int
-	typeByID []types.Type
-	errGlobals map[*ssa.Global]int // immutable error globals -> unique id
+	repo           string
+	verif          string
+	prog           *ssa.Program
+	pkgs           []*packages.Package
+	spkgs          map[string]*ssa.Package // by short name (server, cmd)
+	fset           *token.FileSet
+	specs          *Specs
+	funcs          map[string]*ssa.Function // by key
+	files          map[*token.File]*ast.File
+	typeIDs        map[string]int
+	typeByID       []types.Type
+	errGlobals     map[*ssa.Global]int // immutable error globals -> unique id
 	globalsWritten map[*ssa.Global]bool
-	tier   string
-	timeoutMs int
-	verbose bool
-	tmpdir string
+	constGlobals   map[*ssa.Global]*ssa.Const // globals initialised once with a constant and never written again
+	accessed       map[string][]*types.Var    // struct type key -> fields the repository reads or writes
+	tier           string
+	timeoutMs      int
+	verbose        bool
+	tmpdir         string
 }
 
 // fnKey is the stable, short name of a function used in contract files.
@@ -65,7 +67,7 @@ func loadEngine(repo, verif string) (*Engine, error) {
 	prog.Build()
 	e := &Engine{repo: repo, verif: verif, prog: prog, pkgs: pkgs, spkgs: map[string]*ssa.Package{}, funcs: map[string]*ssa.Function{},
 		files: map[*token.File]*ast.File{}, typeIDs: map[string]int{}, typeByID: []types.Type{nil},
-		errGlobals: map[*ssa.Global]int{}, globalsWritten: map[*ssa.Global]bool{}}
+		errGlobals: map[*ssa.Global]int{}, globalsWritten: map[*ssa.Global]bool{}, constGlobals: map[*ssa.Global]*ssa.Const{}}
 	e.fset = prog.Fset
 	for i, sp := range spkgs {
 		if sp == nil {
@@ -82,6 +84,7 @@ func loadEngine(repo, verif string) (*Engine, error) {
 		}
 	}
 	e.scanGlobals()
+	e.scanAccessedFields()
 	sp, err := loadAllSpecs(repo, verif)
 	if err != nil {
 		return nil, err
@@ -115,10 +118,33 @@ func (e *Engine) scanGlobals() {
 						}
 					}
 					delete(e.errGlobals, g)
+					// constant initialiser, possibly through a type conversion
+					val := st.Val
+					for {
+						if ct, ok := val.(*ssa.ChangeType); ok {
+							val = ct.X
+							continue
+						}
+						if cv, ok := val.(*ssa.Convert); ok {
+							val = cv.X
+							continue
+						}
+						break
+					}
+					if c, ok := val.(*ssa.Const); ok && inits[g] == 1 && c.Value != nil {
+						e.constGlobals[g] = c
+					} else {
+						delete(e.constGlobals, g)
+					}
 				} else {
 					e.globalsWritten[g] = true
 				}
 			}
+		}
+	}
+	for g := range e.constGlobals {
+		if e.globalsWritten[g] || inits[g] != 1 {
+			delete(e.constGlobals, g)
 		}
 	}
 	var gs []*ssa.Global
@@ -132,6 +158,45 @@ func (e *Engine) scanGlobals() {
 	sort.Slice(gs, func(i, j int) bool { return gs[i].String() < gs[j].String() })
 	for i, g := range gs {
 		e.errGlobals[g] = i + 1
+	}
+}
+
+// scanAccessedFields records, per struct type, the fields that any repository
+// function addresses. A shallow struct copy (e.g. Request.WithContext) copies
+// exactly these heap arrays.
+func (e *Engine) scanAccessedFields() {
+	e.accessed = map[string][]*types.Var{}
+	seen := map[string]bool{}
+	add := func(t types.Type, i int) {
+		st, ok := t.Underlying().(*types.Struct)
+		if !ok {
+			return
+		}
+		k := typeKey(t)
+		f := st.Field(i)
+		if seen[k+"."+f.Name()] {
+			return
+		}
+		seen[k+"."+f.Name()] = true
+		e.accessed[k] = append(e.accessed[k], f)
+	}
+	var keys []string
+	for k := range e.funcs {
+		keys = append(keys, k)
+	}
+	sort.Strings(keys)
+	for _, k := range keys {
+		fn := e.funcs[k]
+		for _, b := range fn.Blocks {
+			for _, in := range b.Instrs {
+				switch x := in.(type) {
+				case *ssa.FieldAddr:
+					add(x.X.Type().Underlying().(*types.Pointer).Elem(), x.Field)
+				case *ssa.Field:
+					add(x.X.Type(), x.Field)
+				}
+			}
+		}
 	}
 }
 
